@@ -48,7 +48,12 @@ pub fn csv_expressions_first_guarded()
 /// <ws> <expr>
 /// ```
 pub fn ws_expr_pos_p() -> impl Parser<StringView, Output = ExpressionPos, Error = ParserError> {
-    super::parenthesis::parser().or(lead_ws(expression_pos_p()))
+    // an opening parenthesis may follow directly, but it only starts the expression:
+    // NOT(0) = 5 is NOT ((0) = 5)
+    super::parenthesis::parser()
+        .peek()
+        .and_keep_right(expression_pos_p())
+        .or(lead_ws(expression_pos_p()))
 }
 
 /// Parses an expression that is either surrounded by whitespace
